@@ -4,7 +4,7 @@
    All notions are relative to a bound B on the length of the input the decoder is run on
    (needed for dec_dval, whose fuel is the input length); B is arbitrary elsewhere. *)
 From Coq Require Import ZifyN ZifyNat ZifyBool.
-From QV Require Import WireDefs.
+From QV Require Import WireDefs WireProofs.
 Local Open Scope nat_scope.
 
 (* p consumes exactly e (whatever follows), on inputs shorter than B *)
@@ -69,9 +69,6 @@ Qed.
 
 Lemma pow32 : (2 ^ (8 * N.of_nat 4) = 4294967296)%N.
 Proof. reflexivity. Qed.
-
-Lemma enc_str_length s : List.length (enc_str s) = 4 + List.length s.
-Proof. unfold enc_str, enc_u32. rewrite app_length, le_length. reflexivity. Qed.
 
 Lemma read_str_ok s r :
   (N.of_nat (List.length s) <= MaxStringSize)%N -> read_str (enc_str s ++ r) = ROk (s, r).
@@ -268,3 +265,65 @@ Section Pair.
       rewrite Hx, Hl. apply fails_err.
   Qed.
 End Pair.
+
+(* ---------- a header followed by a body, cut at k ---------- *)
+Lemma read_u32_trunc n body k :
+  (n < 2 ^ 32)%N -> k < List.length (enc_u32 n ++ body) ->
+  (k < 4 /\ read_num 4 (firstn k (enc_u32 n ++ body)) = RErr []) \/
+  (4 <= k /\ k - 4 < List.length body /\
+   read_num 4 (firstn k (enc_u32 n ++ body)) = ROk (n, firstn (k - 4) body)).
+Proof.
+  intros Hn Hk. rewrite app_length, enc_u32_length in Hk.
+  destruct (Nat.lt_ge_cases k 4) as [Hlt|Hge].
+  - left. split; [exact Hlt|]. apply read_num_fail. rewrite firstn_length, app_length, enc_u32_length. lia.
+  - right. split; [exact Hge|]. split; [lia|].
+    rewrite firstn_app_ge by (rewrite enc_u32_length; exact Hge). rewrite enc_u32_length.
+    apply read_u32_enc. exact Hn.
+Qed.
+
+Lemma read_str_trunc B s body k :
+  (N.of_nat (List.length s) <= MaxStringSize)%N -> k < List.length (enc_str s ++ body) -> k < B ->
+  fails (read_str (firstn k (enc_str s ++ body))) \/
+  (List.length (enc_str s) <= k /\ k - List.length (enc_str s) < List.length body /\
+   read_str (firstn k (enc_str s ++ body)) = ROk (s, firstn (k - List.length (enc_str s)) body)).
+Proof.
+  intros Hs Hk HB. rewrite app_length in Hk.
+  destruct (Nat.lt_ge_cases k (List.length (enc_str s))) as [Hlt|Hge].
+  - left. rewrite firstn_app_lt by exact Hlt. exact (read_str_strict B s Hs k Hlt HB).
+  - right. split; [exact Hge|]. split; [lia|].
+    rewrite firstn_app_ge by exact Hge. apply read_str_enc. exact Hs.
+Qed.
+
+Lemma fails_bind {A C} (r : res A) (f : A -> res C) : fails r -> fails (bind r f).
+Proof. intros [l Hl]. rewrite Hl. apply fails_err. Qed.
+
+Lemma lt31_32 (n : N) : (n < 2 ^ 31 -> n < 2 ^ 32)%N.
+Proof.
+  intro Hn. change (2 ^ 31)%N with 2147483648%N in Hn. change (2 ^ 32)%N with 4294967296%N. lia.
+Qed.
+
+(* ---------- plumbing between Forall / Forall2 and all2 ---------- *)
+Lemma Forall2_Forall_l {X Y} (P : X -> Prop) (R : X -> Y -> Prop) l ts :
+  Forall P l -> Forall2 R l ts -> Forall2 (fun x t => P x /\ R x t) l ts.
+Proof.
+  intros HP HR. induction HR as [|x t l ts Hx HR IH]; [constructor|].
+  inversion HP as [|x' l' Hpx HP']; subst. constructor; [split; assumption|apply IH; exact HP'].
+Qed.
+
+Lemma Forall2_mp {X Y} (P Q : X -> Y -> Prop) l ts :
+  Forall (fun x => forall y, P x y -> Q x y) l -> Forall2 P l ts -> Forall2 Q l ts.
+Proof.
+  intros HI HP. induction HP as [|x t l ts Hx HP IH]; [constructor|].
+  inversion HI as [|x' l' Hix HI']; subst. constructor; [apply Hix; exact Hx|apply IH; exact HI'].
+Qed.
+
+Lemma all2_of_Forall2 {A T} B (body : T -> bytes -> res (A * bytes)) (l : list tval) ts :
+  Forall2 (fun x t => eats B (body t) (spec_enc x) /\ strict B (body t) (spec_enc x)) l ts ->
+  all2 B (map body ts) (map spec_enc l).
+Proof.
+  intro HF. induction HF as [|x t l ts [He Hs] HF IH]; cbn [map]; constructor; assumption.
+Qed.
+
+Lemma dyn_depth_members (l : list tval) :
+  Forall (fun x => dyn_depth x <= fold_right (fun y a => Nat.max (dyn_depth y) a) 0 l) l.
+Proof. apply Forall_forall. intros x Hin. apply dyn_depth_in. exact Hin. Qed.
